@@ -441,17 +441,19 @@ def outcome_any(x: sched.Execution) -> str:
     return json.dumps(x.obs["results"], default=repr, sort_keys=True) if "results" in x.obs else outcome_key(x)
 
 
+BUDGET = 1500  # executions per task; the rest of the task's search stack comes back as further tasks (sub-trees are very uneven)
+
+
 def _explore_root(arg):
-    batch, nworkers, bound, root, cap, fine = arg
+    batch, nworkers, bound, roots, cap, fine = arg
     for n in set(batch):
         direct(n)
-    st, fails, capped = sched.explore(lambda p: run_any(batch, nworkers, p, fine), judge_any(batch, fine), bound, roots=[root],
-                                      max_executions=cap, outcome_key=outcome_any)
-    return (batch, nworkers, fine), st, fails, capped
-
-
-def _worker(chunk):
-    return [_explore_root(a) for a in chunk]
+    st, fails, capped = sched.explore(lambda p: run_any(batch, nworkers, p, fine), judge_any(batch, fine), bound, roots=roots,
+                                      max_executions=cap, outcome_key=outcome_any, budget=BUDGET)
+    rest, st.rest = st.rest, []
+    # hand the unexplored stack back in a few pieces (deepest items last = cheapest first)
+    more = [(batch, nworkers, bound, rest[i::4], cap, fine) for i in range(4) if rest[i::4]]
+    return ((batch, nworkers, fine), st, fails, capped), more
 
 
 def plans(tier: str):
@@ -549,10 +551,10 @@ def check(tier: str, seed: int) -> Result:
         for i, p in enumerate(x0.points):
             if (1 if p.running_enabled else 0) <= bound:
                 for alt in range(1, len(p.enabled)):
-                    jobs.append((batch, nworkers, bound, x0.choices[:i] + [alt], cap, fine))
+                    jobs.append((batch, nworkers, bound, [(x0.choices[:i] + [alt], i + 1)], cap, fine))
     jobs = core.seeded_order(jobs, seed)
-    for part in core.pmap_chunks(_worker, jobs, chunk=1):
-        for (batch, nworkers, fine), st, fails, capped in part:
+    for part in core.pmap_dynamic(_explore_root, jobs):
+        for (batch, nworkers, fine), st, fails, capped in [part]:
             p = per[f"{'+'.join(batch)}/w{nworkers}{('/lines-' + str(fine)) if fine else ''}"]
             p["executions"] += st.executions
             p["transitions"] += st.points
